@@ -67,7 +67,7 @@ func run(args []string) int {
 	evid := fs.String("evidence", "", "evidence file to write")
 	replayDir := fs.String("replay-dir", "/verif/replay", "where counterexample files are written")
 	workers := fs.Int("workers", runtime.NumCPU(), "worker count")
-	solver := fs.String("solver", "z3", "z3|z3-new|cvc5")
+	solver := fs.String("solver", "z3-new", "z3-new (5.1.0, default) | z3 (4.8.12) | cvc5")
 	timeout := fs.Int("qtimeout", 10000, "per-query timeout (ms)")
 	maxPaths := fs.Int("max-paths", 0, "stop a harness after this many paths (0 = no limit)")
 	budget := fs.Duration("budget", 0, "wall-clock budget per harness (0 = none)")
